@@ -22,44 +22,46 @@ Rows == ((-N)..N) \X ((-N)..N) \X ((-N)..N)
 FirstRows == IF Canon THEN {r \in Rows : 0 <= r[1] /\ r[1] <= r[2] /\ r[2] <= r[3]} ELSE Rows
 NoCell == [route |-> "none", gram |-> M3Id]
 
-(* G and Dt are history variables holding Gram(L) and det(L) of the chosen lattice  *)
-(* (recomputing them inside every invariant costs TLC a factor of ten).           *)
-VARIABLES phase, L, G, Dt, cell
-vars == <<phase, L, G, Dt, cell>>
+(* G, Dt, AL, AG, DG are history variables holding Gram(L), det(L), adj(L), adj(G)  *)
+(* and det(G) of the chosen lattice (recomputing them inside every invariant costs *)
+(* TLC a factor of ten); invariant History ties them to their definitions.         *)
+VARIABLES phase, L, G, Dt, AL, AG, DG, cell
+vars == <<phase, L, G, Dt, AL, AG, DG, cell>>
 
-Init == phase = "row" /\ L = <<>> /\ G = M3Id /\ Dt = 1 /\ cell = NoCell
-PickFirst == phase = "row" /\ \E r \in FirstRows : L' = <<r>> /\ phase' = "rest" /\ UNCHANGED <<G, Dt, cell>>
+Init == phase = "row" /\ L = <<>> /\ G = M3Id /\ Dt = 1 /\ AL = M3Id /\ AG = M3Id /\ DG = 1 /\ cell = NoCell
+PickFirst == phase = "row" /\ \E r \in FirstRows : L' = <<r>> /\ phase' = "rest" /\ UNCHANGED <<G, Dt, AL, AG, DG, cell>>
 PickRest == /\ phase = "rest"
             /\ \E r2 \in Rows : \E r3 \in Rows : L' = <<L[1], r2, r3>>
-            /\ G' = Gram(L') /\ Dt' = M3Det(L')
+            /\ G' = Gram(L') /\ Dt' = M3Det(L') /\ AL' = M3Adj(L') /\ AG' = M3Adj(G') /\ DG' = M3Det(G')
             /\ phase' = "lattice" /\ UNCHANGED cell
 (* spec -> code: with Emit the lattices of the -BigN..BigN sub-range are printed; the       *)
 (* harness drives every printed lattice through the real UnitCell constructors.            *)
 EmitLattice == IF Emit /\ \A i \in Ix : \A j \in Ix : L[i][j] \in (-BigN)..BigN
                THEN PrintT("G|" \o ToString(L)) ELSE TRUE
 FromVectors == /\ phase = "lattice" /\ Dt > 0
-               /\ cell' = [route |-> "vectors", gram |-> Gram(L)] /\ phase' = "cell" /\ UNCHANGED <<L, G, Dt>>
+               /\ cell' = [route |-> "vectors", gram |-> Gram(L)] /\ phase' = "cell" /\ UNCHANGED <<L, G, Dt, AL, AG, DG>>
                /\ EmitLattice
 FromParams == /\ phase = "lattice" /\ Dt > 0
               /\ cell' = [route |-> "params", gram |-> GramFromParams2(Params2(G))]
-              /\ phase' = "cell" /\ UNCHANGED <<L, G, Dt>>
+              /\ phase' = "cell" /\ UNCHANGED <<L, G, Dt, AL, AG, DG>>
 Named(fam) == /\ phase = "lattice" /\ Dt > 0 /\ InFamily(fam, G)
               /\ cell' = [route |-> fam, gram |-> FamilyGram(fam, G)]
-              /\ phase' = "cell" /\ UNCHANGED <<L, G, Dt>>
+              /\ phase' = "cell" /\ UNCHANGED <<L, G, Dt, AL, AG, DG>>
 Next == PickFirst \/ PickRest \/ FromVectors \/ FromParams \/ \E fam \in Families : Named(fam)
 Spec == Init /\ [][Next]_vars
 
 Have == phase = "lattice"          \* the algebraic invariants are evaluated once per lattice
-History == phase \in {"lattice", "cell"} => G = Gram(L) /\ Dt = M3Det(L)
+History == phase \in {"lattice", "cell"} => /\ G = Gram(L) /\ Dt = M3Det(L)
+                                             /\ (phase = "lattice" => AL = M3Adj(L) /\ AG = M3Adj(G) /\ DG = M3Det(G))
 (* --- invariants ------------------------------------------------------------ *)
-AdjugateInverse == Have => /\ M3Mul(M3Adj(L), L) = M3Scale(Dt, M3Id)
-                           /\ M3Mul(L, M3Adj(L)) = M3Scale(Dt, M3Id)
-GramDeterminant == Have => Symmetric(G) /\ M3Det(G) = Dt * Dt /\ ((Dt # 0) = PosDef(G))
-GramAdjugate == Have => /\ M3Mul(M3Adj(G), G) = M3Scale(M3Det(G), M3Id)
-                        /\ M3Adj(G) = M3Mul(M3T(M3Adj(L)), M3Adj(L))       \* reciprocal metric = metric of adj(L)^T rows
-VolumeFormula == Have => VolumeClosedForm(G) = M3Det(G)
-StarFormulas == Have => StarFormulasAgree(G)
-Cholesky == Have => CholeskyIdentities(G)
+AdjugateInverse == Have => /\ M3Mul(AL, L) = M3Scale(Dt, M3Id)
+                           /\ M3Mul(L, AL) = M3Scale(Dt, M3Id)
+GramDeterminant == Have => Symmetric(G) /\ DG = Dt * Dt /\ ((Dt # 0) = PosDef(G))
+GramAdjugate == Have => /\ M3Mul(AG, G) = M3Scale(DG, M3Id)
+                        /\ AG = M3Mul(M3T(AL), AL)       \* reciprocal metric = metric of the rows of adj(L)^T
+VolumeFormula == Have => VolumeClosedForm(G) = DG
+StarFormulas == Have => StarFormulasAgreeA(G, AG)
+Cholesky == Have => CholeskyIdentitiesA(G, AG, DG)
 Hadamard == (Have /\ Dt # 0) => CondNum(G) >= CondDen(G)
 RoutesAgree == phase = "cell" => cell.gram = G
 (* BigInt / Rat operators agree with plain integers *)
